@@ -399,8 +399,10 @@ type live struct {
 // histAlphabet: G a/b = Garble with key A/B written into ONE shared key buffer; F = Garble with key A in a
 // fresh buffer; X = Garble whose randomness source fails on its 2nd read (must return an error);
 // r/R = Release oldest/newest live garbling (twice: Release is idempotent); e/E = evaluate oldest/newest
-// live garbling on every input and compare every wire with the truth table.
-var histAlphabet = []byte("abFXrReE")
+// live garbling on every input and compare every wire with the truth table; 1/2/3 = Garble with the first
+// 16/24/32 bytes of ONE master key (keys of different AES sizes of which the shorter is a prefix of the longer:
+// a key schedule or key copy carried over in the recycled scratch and compared by prefix shows here; seed C01-9).
+var histAlphabet = []byte("abFXrReE123")
 
 // runHist executes one operation history on one circuit value, single-threaded.
 func runHist(ctx *runner.Ctx, k cs) {
@@ -474,6 +476,17 @@ func runHist(ctx *runner.Ctx, k cs) {
 			}
 			// the evaluator side keeps its own copy of the key, as in the protocol
 			lives = append(lives, &live{g: g, key: append([]byte(nil), key...)})
+		case '1', '2', '3':
+			seed++
+			master := make([]byte, 32)
+			fill(master, 0x33)
+			key := master[:map[byte]int{'1': 16, '2': 24, '3': 32}[op]]
+			g, err := c.Garble(drbg.New(seed), key)
+			if err != nil {
+				fail("garble-error", err.Error())
+				return
+			}
+			lives = append(lives, &live{g: g, key: append([]byte(nil), key...)})
 		case 'X':
 			seed++
 			fr := &failingReader{r: drbg.New(seed), failAt: 2}
@@ -537,7 +550,7 @@ func histories(ctx *runner.Ctx) {
 			for i := range h {
 				h[i] = histAlphabet[v%n]
 				v /= n
-				if h[i] == 'a' || h[i] == 'b' || h[i] == 'F' {
+				if h[i] == 'a' || h[i] == 'b' || h[i] == 'F' || h[i] == '1' || h[i] == '2' || h[i] == '3' {
 					garbles++
 				}
 			}
@@ -561,7 +574,7 @@ func histories(ctx *runner.Ctx) {
 			}
 		}
 	}
-	ctx.Note(fmt.Sprintf("histories: every sequence of <= %d operations over {Garble keyA/keyB in one shared buffer, Garble fresh buffer, Garble with failing randomness, Release oldest/newest (twice), Eval oldest/newest} with >= 1 garble, on 2 circuits", maxLen))
+	ctx.Note(fmt.Sprintf("histories: every sequence of <= %d operations over {Garble keyA/keyB in one shared buffer, Garble fresh buffer, Garble with the 16/24/32-byte prefixes of one master key, Garble with failing randomness, Release oldest/newest (twice), Eval oldest/newest} with >= 1 garble, on 2 circuits", maxLen))
 }
 
 func main() {
